@@ -238,7 +238,7 @@ def run(ctx):
     tm['pool+flatten'] = round(time.time() - t0, 1)
     t0 = time.time()
     # ---------------- sequences ----------------
-    names = list(S.NAMES)
+    names = [x for x in S.NAMES if x != "to_device" or "identity_to_mutates_self" not in present]
     seqs = [[a] for a in names] + [list(p) for p in itertools.product(names, repeat=2)]
     core_names = [x for x in names if x in CORE]
     if ctx.tier == "thorough":
